@@ -373,7 +373,7 @@ func c16SameCerts(got []*x509.Certificate, ders [][]byte) bool {
 }
 
 func checkC16(c *ev.Ctx) {
-	c.Rule("corpus: x509.CreateCertificate over subject keys {RSA1024,RSA2048,P-256,P-384,P-521} x signature algorithms {SHA1/256/384/512-RSA, PSS-256, ECDSA-SHA256/384/512} x every subset of 7 extension kinds (all 128); each member: field-by-field comparison with crypto/x509, every 8th member also re-encoded with issuer/subject unique IDs, +trailing data, +NULL-less RSA re-encoding; byte-mutation neighbourhood (every position x 7 replacements, every truncation) of a generating subset (quick 16+, thorough 64+ bases) for totality; PEM bundles of 0..5 x leading/trailing/between texts; ModHex over ALL extension values of length 0..4 (7-symbol alphabet) and 5..8 (3-symbol alphabet), absent, twice, per-position 256-value injectivity. non-trivial = corpus member compared / valid serial / bundle; distinct by construction parameters")
+	c.Rule("corpus: x509.CreateCertificate over subject keys {RSA1024,RSA2048,P-256,P-384,P-521} x signature algorithms {SHA1/256/384/512-RSA, PSS-256, ECDSA-SHA256/384/512} x every subset of 7 extension kinds (all 128); each member: field-by-field comparison with crypto/x509, every 8th member also re-encoded with issuer/subject unique IDs, +trailing data, +NULL-less RSA re-encoding; a size ladder of 16 members whose total DER length is 65000..131072 bytes (65535 / 65536 / 65537 exactly: the three-byte length form); byte-mutation neighbourhood (every position x 7 replacements, every truncation) of a generating subset (quick 16+, thorough 64+ bases) for totality; PEM bundles of 0..5 x leading/trailing/between texts; ModHex over ALL extension values of length 0..4 (7-symbol alphabet) and 5..8 (3-symbol alphabet), absent, twice, per-position 256-value injectivity. non-trivial = corpus member compared / valid serial / bundle; distinct by construction parameters")
 	c.Assume("crypto/x509 is the reference decoder for well-formed certificates", "certificates are produced by crypto/x509's encoder (a conforming encoder)")
 	if c.ReplayCase != nil {
 		var k c16Case
@@ -476,6 +476,41 @@ func checkC16(c *ev.Ctx) {
 			}
 		}
 	})
+	// size ladder: the same certificate with one vendor extension grown until the outer SEQUENCE, the TBS, and the
+	// extension value itself cross every DER length-form boundary that fits in memory comfortably (2-byte lengths up to
+	// 65535, 3-byte lengths from 65536) - each is a corpus member (agreement, second parse, trailing data, NULL-less form)
+	{
+		nl := 0
+		for _, target := range []int{65535, 65536, 65537, 65536 + 300, 72000, 1 << 17, 70000, 65000} {
+			for si, s := range []c16Subject{subjects[0], subjects[2]} {
+				extLen := target - 700
+				var der []byte
+				for try := 0; try < 6; try++ {
+					t := c16Template(2|64, int64(90000+nl))
+					t.SignatureAlgorithm = x509.SHA256WithRSA
+					t.ExtraExtensions = append(t.ExtraExtensions, pkix.Extension{Id: asn1.ObjectIdentifier{1, 3, 6, 1, 4, 1, 41482, 3, 99}, Value: bytes.Repeat([]byte{0x5a}, extLen)})
+					parent := c16Template(1|2, 1)
+					parent.Subject.CommonName = "verif issuer rsa2048"
+					d, err := c16Create(t, parent, s.pub, issuers[0].key)
+					if err != nil {
+						c.Violation("C16:harness:create", err.Error(), nil)
+						break
+					}
+					der = d
+					if len(d) == target || target == 70000 || target == 65000 {
+						break
+					}
+					extLen += target - len(d)
+				}
+				if der == nil {
+					continue
+				}
+				c16CorpusMember(c, der, fmt.Sprintf("size ladder: %d bytes of DER (subject=%s)", len(der), s.name), si == 0)
+				nl++
+			}
+		}
+		c.Set("size_ladder_members", nl)
+	}
 	// mutation neighbourhood
 	var gen [][]byte
 	step := len(ders) / 16
